@@ -3,6 +3,7 @@ package scan
 import (
 	"context"
 	"errors"
+	"net"
 	"time"
 )
 
@@ -146,4 +147,52 @@ func c19Pick(label string, vals ...time.Duration) time.Duration {
 	k := ndU8(label)
 	verifAssume(int(k) < len(vals))
 	return vals[verifConcretize(uint64(k))]
+}
+
+// VerifH_C19_liveSlowConsumer: the generator stack of the arp command (live wrapper over the real address
+// request generator and the real permutation iterator) over a /29 with a consumer that takes one request
+// every STEP (a rate-limited sender): every pass is complete, and the first request of the next pass is
+// handed over no earlier than the rescan interval after the LAST request of the previous pass was taken
+// (not after it was merely buffered).  Logical clock.
+func VerifH_C19_liveSlowConsumer() {
+	interval := 400 * time.Millisecond
+	step := []time.Duration{100 * time.Millisecond, 30 * time.Millisecond, 450 * time.Millisecond}[int(verifConcretize(uint64(ndU8("step")%3)))]
+	verifNow()
+	ctx, cancel := context.WithCancel(context.Background())
+	defer cancel()
+	gen := NewLiveRequestGenerator(NewIPRequestGenerator(NewIPGenerator()), interval)
+	r := &Range{DstSubnet: &net.IPNet{IP: net.IPv4(10, 9, 8, 0).To4(), Mask: net.CIDRMask(29, 32)}}
+	ch, err := gen.GenerateRequests(ctx, r)
+	verifAssert(err == nil, "live generator refused a valid target")
+	if err != nil {
+		return
+	}
+	slack := time.Duration(0)
+	if !verifSymbolic() {
+		slack = 50 * time.Millisecond
+	}
+	var lastTaken time.Duration
+	for pass := 0; pass < 3; pass++ {
+		seen := [8]bool{}
+		for k := 0; k < 8; k++ {
+			req, ok := <-ch
+			at := time.Duration(verifNow())
+			verifAssert(ok && req != nil && req.Err == nil && len(req.DstIP) >= 4, "live stream ended or delivered an error request")
+			if !ok || req == nil || len(req.DstIP) < 4 {
+				return
+			}
+			ip := req.DstIP.To4()
+			verifAssert(ip != nil && ip[0] == 10 && ip[1] == 9 && ip[2] == 8 && ip[3] < 8 && !seen[ip[3]&7], "a pass is not a permutation of the target subnet")
+			if ip != nil {
+				seen[ip[3]&7] = true
+			}
+			if pass > 0 && k == 0 {
+				verifAssert(at-lastTaken >= interval-slack, "the next pass started earlier than the rescan interval after the previous pass ended")
+			}
+			lastTaken = at
+			time.Sleep(step)
+		}
+	}
+	cancel()
+	verifCover("done")
 }
